@@ -306,6 +306,12 @@ def frameStep (s : DecSt) (f : FrameIn) : FrameAcc × DecSt :=
       (⟨[], r.1 ++ cc.1, shiftAccesses c ++ rd .pitchL (nb - 1) nb, g.1, rd .xq 0 c.frameLen, false⟩,   -- PLC.c:444-448
        { s1 with cngFs := g.2.1, cngSeed := g.2.2, lastFrameLost := true, lagPrev := cc.2.2.2.2 })
 
+/-- Initialised-before-read verdict for the LTP state array of one silk_decode_frame call: `sLTP_Q15` of
+    silk_decode_core for a decoded frame, `sLTP_Q14` of silk_PLC_conceal (on the PLC state silk_PLC has brought to the
+    current rate) for a concealed one. -/
+def frameInitOk (s : DecSt) (f : FrameIn) : Bool :=
+  if f.lost then concealInitOk (plcResetIfNeeded s).2 else coreInitOk (coreInOf s f)
+
 /-! ### the other events of a decoder history -/
 
 /-- `silk_reset_decoder` / `silk_init_decoder` (init_decoder.c:43-83): everything zero, then
